@@ -6,6 +6,12 @@
 //!   operands     = `fix:<i64>` `big:<int>` `rat:<n>/<d>` `flo:<16 hex>`
 //!   response     = `ok <num>` | `ok b0|b1` | `err <class>` | `panic`
 //!   spec-request = `spec <request> => <response>` (the driver judges the response against ℚ)
+//! C14 (mode `eqv`): request `eqv <a> <b>`, response `ok` + eight `b0|b1` — `(eqv? a b)`,
+//!   `(equal? a b)`, `(equal? (list 1 a) (list 1 b))`, `(equal? (vector a) (vector b))`,
+//!   `(memv a (list b))`, `(member a (list b))`, `(assv a (list (cons b 1)))`,
+//!   `(assoc a (list (cons b 1)))` as truth values — followed by the two informational tokens
+//!   `eq:<b>` (`(eq? a b)`, unspecified on numbers) and `=:<b>` (`(= a b)`); spec-request
+//!   `eqvspec <a> <b>`.
 //! NaN results are canonicalised to 7ff8000000000000 (the payload/sign of a NaN is not an
 //! observable of the property and differs between x87/SSE default NaNs).
 use marwood::cell::Cell;
@@ -214,6 +220,212 @@ fn enc_raw(n: &Number) -> String {
         Number::Float(f) => format!("flo:{:016x}", f.to_bits()),
         _ => enc(n),
     }
+}
+
+
+// ---------------------------------------------------------------- C14: eqv? on numbers
+
+fn sym(s: &str) -> Cell {
+    Cell::new_symbol(s)
+}
+
+fn app(f: &str, args: Vec<Cell>) -> Cell {
+    let mut v = vec![sym(f)];
+    v.extend(args);
+    Cell::new_list(v)
+}
+
+fn truth(e: Cell) -> Cell {
+    Cell::new_list(vec![sym("if"), e, Cell::Bool(true), Cell::Bool(false)])
+}
+
+/// the ten forms of the stream over two operand expressions (constants or global variables)
+fn eqv_forms(x: &Cell, y: &Cell) -> Cell {
+    let one = || Cell::Number(Number::Fixnum(1));
+    let x = || x.clone();
+    let y = || y.clone();
+    app(
+        "list",
+        vec![
+            app("eqv?", vec![x(), y()]),
+            app("equal?", vec![x(), y()]),
+            app("equal?", vec![app("list", vec![one(), x()]), app("list", vec![one(), y()])]),
+            app("equal?", vec![app("vector", vec![x()]), app("vector", vec![y()])]),
+            truth(app("memv", vec![x(), app("list", vec![y()])])),
+            truth(app("member", vec![x(), app("list", vec![y()])])),
+            truth(app("assv", vec![x(), app("list", vec![app("cons", vec![y(), one()])])])),
+            truth(app("assoc", vec![x(), app("list", vec![app("cons", vec![y(), one()])])])),
+            app("eq?", vec![x(), y()]),
+            app("=", vec![x(), y()]),
+        ],
+    )
+}
+
+impl Scm {
+    fn eval_cell(&mut self, expr: &Cell) -> Result<Result<Cell, Error>, ()> {
+        let mut vm = self.vm.take().unwrap_or_else(Vm::new);
+        let r = catch(AssertUnwindSafe(|| {
+            let r = vm.eval(expr);
+            (vm, r)
+        }));
+        match r {
+            Err(_) => Err(()),
+            Ok((vm, r)) => {
+                self.vm = Some(vm);
+                Ok(r)
+            }
+        }
+    }
+
+    /// evaluate the ten forms on the real VM
+    fn eqv_response(&mut self, x: &Cell, y: &Cell) -> String {
+        match self.eval_cell(&eqv_forms(x, y)) {
+            Err(()) => "panic".into(),
+            Ok(Err(e)) => format!("err {}", err_class(&e)),
+            Ok(Ok(c)) => {
+                let bs: Vec<Option<bool>> = c.iter().map(|b| b.as_bool()).collect();
+                if !c.is_list() || bs.len() != 10 || bs.iter().any(|b| b.is_none()) {
+                    return "ok other".into();
+                }
+                let t = |b: Option<bool>| if b.unwrap() { "b1" } else { "b0" };
+                let mut s = String::from("ok");
+                for b in &bs[..8] {
+                    s.push(' ');
+                    s.push_str(t(*b));
+                }
+                s.push_str(&format!(" eq:{} =:{}", t(bs[8]), t(bs[9])));
+                s
+            }
+        }
+    }
+}
+
+impl<'a> Out<'a> {
+    fn emit_eqv(&mut self, a: &Number, b: &Number, resp: String) {
+        writeln!(
+            self.w,
+            "eqv {} {}\t{}\teqvspec {} {}",
+            enc_raw(a),
+            enc_raw(b),
+            resp,
+            enc_raw(a),
+            enc_raw(b)
+        )
+        .unwrap();
+    }
+    /// operands as self-evaluating constants: the representation reaches `Vm::eqv` unchanged
+    fn eqv(&mut self, a: &Number, b: &Number) {
+        let resp = self.scm.eqv_response(&Cell::Number(a.clone()), &Cell::Number(b.clone()));
+        self.emit_eqv(a, b, resp);
+    }
+}
+
+/// operands built by the VM's own reader and arithmetic: `(define eqv-c<k> <text>)`, read back to
+/// learn which representation the VM chose; the forms then refer to the global variables
+const CARRIERS: [&str; 40] = [
+    "2",
+    "2.0",
+    "2.",
+    "(/ 4 2)",
+    "(/ 6 3)",
+    "(/ 1 2)",
+    "1/2",
+    "4/2",
+    ".5",
+    "(exact->inexact 1/2)",
+    "(- (expt 2 70) (- (expt 2 70) 2))",
+    "(- (expt 2 70) (- (expt 2 70) 1/2))",
+    "(* 1/2 4)",
+    "(+ 1/2 3/2)",
+    "(+ 1.5 .5)",
+    "0",
+    "0.0",
+    "-0.0",
+    "(- 0.0)",
+    "(* -1 0.0)",
+    "(- 5 5)",
+    "(- 1/2 1/2)",
+    "(- (expt 2 70) (expt 2 70))",
+    "9007199254740992",
+    "9007199254740992.0",
+    "9007199254740993",
+    "(+ 9007199254740992.0 1)",
+    "(expt 2 53)",
+    "(expt 2. 53)",
+    "9223372036854775807",
+    "9223372036854775808",
+    "(+ 9223372036854775807 1)",
+    "(- (expt 2 63) 1)",
+    "9223372036854775808.0",
+    "(expt 2 100)",
+    "(* (expt 2 50) (expt 2 50))",
+    "(exact->inexact (expt 2 100))",
+    "2147483648",
+    "(- 2147483647/2 -2147483649/2)",
+    "1e400",
+];
+
+fn eqv_carriers(out: &mut Out) {
+    let mut have: Vec<(Cell, Number)> = vec![];
+    for (k, text) in CARRIERS.iter().enumerate() {
+        let name = format!("eqv-c{}", k);
+        let def = format!("(define {} {})", name, text);
+        let mut vm = out.scm.vm.take().unwrap_or_else(Vm::new);
+        let r = catch(AssertUnwindSafe(|| {
+            let ok = vm.eval_text(&def).is_ok();
+            (vm, ok)
+        }));
+        if let Ok((vm, ok)) = r {
+            out.scm.vm = Some(vm);
+            if !ok {
+                continue;
+            }
+        } else {
+            continue;
+        }
+        if let Ok(Ok(Cell::Number(n))) = out.scm.eval_cell(&sym(&name)) {
+            have.push((sym(&name), n));
+        }
+    }
+    for (xa, na) in &have {
+        for (xb, nb) in &have {
+            let resp = out.scm.eqv_response(xa, xb);
+            out.emit_eqv(na, nb, resp);
+        }
+    }
+}
+
+/// NaNs by payload: quiet, quiet with payload, negative quiet, signalling
+const NANS: [u64; 4] =
+    [0x7ff8000000000000, 0x7ff8000000000001, 0xfff8000000000000, 0x7ff0000000000001];
+
+/// every other carrier of the value of `a`, the doubles next to it, and its negation
+fn eqv_relatives(a: &Number) -> Vec<Number> {
+    use num::ToPrimitive;
+    let mut v = vec![a.clone()];
+    if let Some(q) = exact_value(a) {
+        if q.is_integer() {
+            v.extend(int_reps(&q.to_integer()));
+            v.extend(int_reps(&-q.to_integer()));
+            v.extend(int_reps(&(q.to_integer() + 1)));
+        }
+        if let (Some(n), Some(d)) = (q.numer().to_i32(), q.denom().to_i32()) {
+            v.push(Number::Rational(Rational32::new_raw(n, d)));
+        }
+    }
+    if let Some(f) = a.to_f64() {
+        if !f.is_nan() {
+            let b = f.to_bits();
+            for d in -2i64..=2 {
+                let g = f64::from_bits(b.wrapping_add(d as u64));
+                if !g.is_nan() {
+                    v.push(Number::Float(g));
+                }
+            }
+            v.push(Number::Float(-f));
+        }
+    }
+    dedup_nums(v)
 }
 
 // ---------------------------------------------------------------- palette
@@ -478,9 +690,15 @@ fn main() {
         // replay one request given on the command line (tokens after `one`)
         "one" => {
             let toks: Vec<&str> = args[2..].iter().map(|s| s.as_str()).collect();
-            let resp = run_request(&toks, &mut out.scm);
-            let req = toks.join(" ");
-            out.emit(req, resp, true);
+            if let ["eqv", a, b] = toks[..] {
+                if let (Some(a), Some(b)) = (dec(a), dec(b)) {
+                    out.eqv(&a, &b);
+                }
+            } else {
+                let resp = run_request(&toks, &mut out.scm);
+                let req = toks.join(" ");
+                out.emit(req, resp, true);
+            }
         }
         // replay requests from a corpus file (one request per line)
         "corpus" => {
@@ -491,6 +709,12 @@ fn main() {
                     continue;
                 }
                 let toks: Vec<&str> = line.split(' ').collect();
+                if let ["eqv", a, b] = toks[..] {
+                    if let (Some(a), Some(b)) = (dec(a), dec(b)) {
+                        out.eqv(&a, &b);
+                    }
+                    continue;
+                }
                 let resp = run_request(&toks, &mut out.scm);
                 out.emit(line.to_string(), resp, true);
             }
@@ -723,9 +947,67 @@ fn main() {
                 out.scm("max", &[nan.clone(), a.clone()], false);
             }
         }
+        // C14: eqv? / equal? / memv / member / assv / assoc (and eq?, =) on every pair
+        "eqv" => {
+            let mut rng = Rng::new(seed ^ 0x1401);
+            // core palette: boundary integers in every representation, a spread of ratios,
+            // the special doubles and NaNs; all pairs (strided)
+            let mut core: Vec<Number> = vec![];
+            for x in boundary_ints() {
+                core.extend(int_reps(&x));
+            }
+            let rats = boundary_rats();
+            let rstep = argn(5).max(1);
+            core.extend(rats.iter().step_by(rstep).cloned());
+            for (n, d) in [(1i64, 2i64), (-1, 2), (1, 3), (2, 3), (-7, 2), (2147483647, 2), (-2147483648, 3)] {
+                core.push(ratio(n, d).unwrap());
+            }
+            let mut fl = float_palette(&mut rng, &[], 0);
+            for b in NANS {
+                fl.push(Number::Float(f64::from_bits(b)));
+            }
+            core.extend(fl);
+            let core = dedup_nums(core);
+            let stride = argn(6).max(1);
+            let mut k = 0usize;
+            for a in &core {
+                for b in &core {
+                    k += 1;
+                    if k % stride != 0 {
+                        continue;
+                    }
+                    out.eqv(a, b);
+                }
+            }
+            // NaN against NaN, every payload pair (never strided)
+            for a in NANS {
+                for b in NANS {
+                    out.eqv(&Number::Float(f64::from_bits(a)), &Number::Float(f64::from_bits(b)));
+                }
+            }
+            // every member of the large palette against the other carriers of its value, the
+            // doubles next to it, its successor and its negation, in both orders
+            let ex = exact_palette(&mut rng, argn(2), argn(3));
+            let mut big_pal = ex.clone();
+            big_pal.extend(float_palette(&mut rng, &[], argn(4)));
+            for a in &big_pal {
+                for b in eqv_relatives(a) {
+                    out.eqv(a, &b);
+                    out.eqv(&b, a);
+                }
+            }
+            // random pairs
+            for _ in 0..argn(7) {
+                let a = rng.pick(&big_pal).clone();
+                let b = if rng.chance(1, 2) { same_value_other_rep(&mut rng, &a) } else { rng.pick(&big_pal).clone() };
+                out.eqv(&a, &b);
+            }
+            // operands produced by the VM's reader and arithmetic, held in global variables
+            eqv_carriers(&mut out);
+        }
         _ => {
             eprintln!(
-                "usage: num one <request…> | corpus FILE | arith-pairs NI NR STRIDE | int-pairs NI STRIDE | unary NI NR | variadic N | cmp-pairs NI NR NF STRIDE | cmp-neighbours NI NR | cmp-triples N"
+                "usage: num one <request…> | corpus FILE | arith-pairs NI NR STRIDE | int-pairs NI STRIDE | unary NI NR | variadic N | cmp-pairs NI NR NF STRIDE | cmp-neighbours NI NR | cmp-triples N | eqv NI NR NF RATSTEP STRIDE NRANDOM"
             );
             std::process::exit(2);
         }
